@@ -9,7 +9,7 @@
       [recover_from_prediction_error], [add_error] (duplicate-location rule, 100-entries rule),
       the places where [error_entries] is drained, and the computation of the final verdict.
     - The token stream AFTER skip-token removal: a lookahead buffer ([tokens]) of located
-      significant tokens, the not yet scanned significant tokens, the at most [k] end-of-input
+      significant tokens, the not yet scanned significant tokens, the at most [max(1,k)] end-of-input
       tokens the [TokenIter] produces (located at the end of the text) and the unlimited
       [Token::eoi] padding of [read_tokens] (default location).  [ensure_buffer] is called at
       exactly the places where the Rust calls it.
@@ -156,7 +156,7 @@ Variable orc : oracle.
 Variable tb : ll_tables.
 Variable opts : options.
 
-(** [TokenStream::k = max(1, k)]. *)
+(** [TokenStream::k = max(1, k)]; the [TokenIter] is created with the same value. *)
 Definition stream_k : nat := Nat.max 1 (tb_k tb).
 
 Definition prod_at (p : N) : option production := nth_error (tb_prods tb) (N.to_nat p).
@@ -520,9 +520,11 @@ Definition ll_init (s0 : stream) : outcome :=
       end
   end.
 
-(** [TokenStream::new]: the buffer is filled at once. *)
+(** [TokenStream::new_with_skip_tokens]: [k = max(1, k)] is computed first, the [TokenIter] gets
+    the same [k] (so it yields [max(1,k)] EOI tokens at the end of the input), and the buffer is
+    filled at once. *)
 Definition init_stream (ltoks : list ltok) (eloc : N) : stream :=
-  ensure (mkStream [] ltoks (tb_k tb) eloc).
+  ensure (mkStream [] ltoks stream_k eloc).
 
 Definition ll_run_located (fuel : nat) (ltoks : list ltok) (eloc : N) : ll_result :=
   match ll_init (init_stream ltoks eloc) with
